@@ -679,7 +679,7 @@ fn run_shard<P: Prop>(opts: &Opts, shard: usize, known: &[Known], stop: &AtomicB
     seed[8..16].copy_from_slice(&s1.to_le_bytes());
     seed[16..24].copy_from_slice(&s2.to_le_bytes());
     seed[24..32].copy_from_slice(&s3.to_le_bytes());
-    let config = Config { cases, failure_persistence: None, max_shrink_iters: 4000, max_global_rejects: 65536, ..Config::default() };
+    let config = Config { cases, failure_persistence: None, max_shrink_iters: 1500, max_shrink_time: 15_000, max_global_rejects: 65536, ..Config::default() };
     let mut runner = TestRunner::new_with_rng(config, TestRng::from_seed(RngAlgorithm::ChaCha, &seed));
     let strategy = P::strategy(opts.tier, &opts.cfg);
     let last_fail: RefCell<Option<Fail>> = RefCell::new(None);
